@@ -18,3 +18,41 @@ def _head_content(t: Toks) -> str:
 def _sha1(t: Toks) -> str:
     from htmltools._util import hash_deterministic
     return es(hash_deterministic(p_str(t)))
+
+
+@op("head_content_json")
+def _head_content_json(t: Toks) -> str:
+    import htmltools
+    ns = p_list(t, p_node)
+    rank0 = int(t.next())
+    old = htmltools.html_dependency_render_mode
+    htmltools.html_dependency_render_mode = "json"
+    try:
+        d = htmltools.head_content(*[realize(n) for n in ns])
+    finally:
+        htmltools.html_dependency_render_mode = old
+    term = canon(d, None)
+    term[1]["vrank"] = rank0
+    return "ok " + enode(term)
+
+
+class Loud(str):
+    """a str subclass whose str()/format() differ from its value (like a (str, Enum) member)"""
+
+    def __str__(self):
+        return "LOUD:" + str.__str__(self)
+
+    def __format__(self, spec):
+        return "LOUD:" + str.__str__(self)
+
+
+@op("noise_strsub")
+def _noise_strsub(t: Toks) -> str:
+    """Python-only (no model): renders constructions whose values are str-subclass instances EQUAL to plain strings used
+    elsewhere in the battery; only ever used as interleaved noise by the C18 worker"""
+    from htmltools import Tag
+    s = p_str(t)
+    x = Loud(s)
+    Tag("div", x, class_=x, title=x).get_html_string()
+    str(Tag("span", {"class": x}, x))
+    return "noise"
